@@ -209,6 +209,7 @@ pub struct Side {
 }
 
 pub struct M {
+    pub alphabet: &'static str,
     pub sub: bool,
     pub acts: Vec<Act>,
     pub max_depth: u8,
@@ -320,7 +321,7 @@ impl Model for M {
         if !viols.is_empty() {
             let mut t = self.side.viols.lock().unwrap();
             for (sig, d) in viols {
-                let e = t.entry(sig).or_insert((0, json!({"path": path, "actions": path.iter().map(|i| format!("{:?}", self.acts[*i as usize])).collect::<Vec<_>>(), "more": d, "sub_alphabet": self.sub})));
+                let e = t.entry(sig).or_insert((0, json!({"path": path, "actions": path.iter().map(|i| format!("{:?}", self.acts[*i as usize])).collect::<Vec<_>>(), "more": d, "sub_alphabet": self.sub, "alphabet": self.alphabet})));
                 e.0 += 1;
             }
         }
@@ -344,7 +345,7 @@ fn search(acts: Vec<Act>, depth: u8, threads: usize, name: &str) -> Report {
     let t0 = std::time::Instant::now();
     let side = Arc::new(Side { transitions: AtomicU64::new(0), compared: AtomicU64::new(0), viols: Mutex::new(BTreeMap::new()), outcomes: Mutex::new(Default::default()) });
     let nacts = acts.len();
-    let m = M { sub: name.starts_with("sub"), acts, max_depth: depth, side: side.clone() };
+    let m = M { alphabet: if name.starts_with("sub") { "sub" } else if name.starts_with("ladder") { "ladder" } else { "full" }, sub: name.starts_with("sub"), acts, max_depth: depth, side: side.clone() };
     let checker = m.checker().threads(threads).spawn_bfs().join();
     let mut rep = Report::default();
     rep.cases = checker.unique_state_count() as u64;
@@ -371,9 +372,19 @@ pub fn prop(tier: Tier, _seed: u64) -> Prop {
     let sub = alphabet(tier, true);
     let (d_full, d_sub): (u8, u8) = tier.pick((2, 3), (3, 4));
     let (f1, s1) = (full.clone(), sub.clone());
+    // ladder alphabet: only the size ladders of the three scratch buffers plus reset / clone, deeper
+    let mut ladder: Vec<Act> = ladder_actions();
+    ladder.push(Act::Reset);
+    ladder.push(Act::CloneIt);
+    let d_ladder: u8 = tier.pick(4, 5);
+    let l1 = ladder.clone();
+    p.extra.push(Box::new(move |cfg| search(l1.clone(), d_ladder, cfg.threads, "ladder alphabet, deepest")));
     p.extra.push(Box::new(move |cfg| {
         // run twice and compare the counts: the model must be deterministic
         let a = search(f1.clone(), d_full, cfg.threads, "full alphabet");
+        if tier == Tier::Thorough {
+            return a; // the repeat is done in the quick tier (same model, same engine)
+        }
         let b = search(f1.clone(), d_full, cfg.threads, "full alphabet (repeat)");
         let mut r = a.clone();
         if a.cases != b.cases || a.ops != b.ops {
@@ -385,7 +396,18 @@ pub fn prop(tier: Tier, _seed: u64) -> Prop {
     p.extra.push(Box::new(move |cfg| search(s1.clone(), d_sub, cfg.threads, "sub-alphabet, deeper")));
     let (f2, s2) = (full.clone(), sub.clone());
     p.replay_fn = Some(Box::new(move |detail: &Value| {
-        let acts = if detail["sub_alphabet"].as_bool().unwrap_or(false) { &s2 } else { &f2 };
+        let l2 = {
+            let mut l = ladder_actions();
+            l.push(Act::Reset);
+            l.push(Act::CloneIt);
+            l
+        };
+        let acts = match detail["alphabet"].as_str() {
+            Some("ladder") => &l2,
+            Some("sub") => &s2,
+            Some("full") => &f2,
+            _ => if detail["sub_alphabet"].as_bool().unwrap_or(false) { &s2 } else { &f2 },
+        };
         let path: Vec<usize> = detail["path"].as_array().map(|a| a.iter().filter_map(|x| x.as_u64()).map(|x| x as usize).collect()).unwrap_or_default();
         let mut rz = Resizer::new();
         let mut be = *backends().last().unwrap();
